@@ -148,6 +148,19 @@ def run_real(c, fish_pct):
         tc = par.init_greenhouse_params({}, c, oc)
         res["greenhouse"] = np.array(tc["greenhouse_crops"].kcals, dtype=float)
         oc = tc["outdoor_crops"]
+        # (the harvest is saved to a table before the first round is solved - the way the web interface asks for it - and the series the
+        # rounds then use is the one that was computed: saving changes nothing)
+        try:
+            from types import SimpleNamespace
+            from src.scenarios.run_scenario import ScenarioRunner
+            from src.food_system.food import Food as _Food
+            _Food.conversions.set_nutrition_requirements(2100, 47, 51, False, False, c["POP"])
+            before_ = np.array(oc.production.kcals, dtype=float).copy()
+            with contextlib.redirect_stdout(io.StringIO()):
+                ScenarioRunner().save_outdoor_crop_production_to_csv({"outdoor_crops": oc}, "supply_replay_%d" % os.getpid(), SimpleNamespace(country="X"))
+            res["crops_changed_by_saving"] = not np.array_equal(before_, np.array(oc.production.kcals, dtype=float))
+        except BaseException as ex_:  # noqa
+            res["crops_changed_by_saving"] = "exception: " + repr(ex_)[:100]
         res["crops"] = np.array(oc.production.kcals, dtype=float)
         res["crops_dtype"] = str(np.asarray(oc.production.kcals).dtype)
         res["crops_grown_reloc"] = np.array(oc.KCALS_GROWN, dtype=float)
@@ -235,6 +248,8 @@ def main():
                 bad("exception", dict(N=N, cfg=cfg, exc=repr(ex)[:200]))
                 continue
             rep["runs"] += 1
+            if real.get("crops_changed_by_saving"):
+                bad("C09:NotQuantised:saving-the-harvest-table-changes-the-harvest", dict(N=N, cfg=cfg, got=real["crops_changed_by_saving"]))
             exp = expected(rec, c, fish, 2100 * 30)
             label = "N=%d reloc=%s gh=%s expand=%s%s%s" % (N, cfg["reloc"], cfg["gh"], cfg["expand"], " small" if small else "", " no-cropland" if nocrop else "")
             for name in ("crops", "greenhouse", "fish", "grass", "feed", "biofuel", "scp", "cs", "sw_area", "sw_growth", "gh_frac"):
